@@ -19,7 +19,15 @@ func PartialServiceAreaListToNas(plmnID models.PlmnId, serviceAreaRestriction mo
 		allowedType = nasMessage.AllowedTypeNonAllowedArea
 	}
 
-	numOfElements := uint8(len(serviceAreaRestriction.Areas))
+	// number of elements = number of TACs, coded as the number minus one (TS 24.501 9.11.3.49, 9.11.3.9)
+	numOfTacs := 0
+	for _, area := range serviceAreaRestriction.Areas {
+		numOfTacs += len(area.Tacs)
+	}
+	var numOfElements uint8
+	if numOfTacs > 0 {
+		numOfElements = uint8(numOfTacs-1) & 0x1f
+	}
 
 	firstByte := (allowedType<<7)&0x80 + numOfElements // only support TypeOfList '00' now
 	plmnIDNas := PlmnIDToNas(plmnID)
